@@ -1,20 +1,33 @@
 """Unit V-rrt: oxmpl/src/geometric/planners/rrt.rs under contract."""
 from extract import Ann
-from units.common import TREE_SPECS, NEAREST_SPECS
+from units.common import TREE_SPECS, NEAREST_SPECS, STEER_LEMMAS
 
 NAME = "V-rrt"
 SRC = "oxmpl/src/geometric/planners/rrt.rs"
 SOURCES = [SRC]
 PRELUDE = ["core.rs"]
+SERVES = ["C01", "C02", "C03", "C04", "C05", "C06", "C07", "C08", "C15", "C16"]
+FUNCTIONS = [SRC + "::" + f for f in ("RRT::new", "RRT::check_motion", "RRT::reconstruct_path", "<RRT as Planner>::setup", "<RRT as Planner>::solve")]
+TRUSTED = ["verus/prelude/core.rs: trait contracts, std/rand/clock stubs, EXACT f64 axioms", "helpers f64_ceil_to_usize / usize_to_f64 (external_body, rules R1/R2)"]
 
 A = []
+
+RRT_STEP = r'''
+/// C16: the effect of one RRT iteration on the tree, for sample q
+spec fn rrt_step<S: State, SP: StateSpace<StateType = S>>(g0: Seq<Node<S>>, t1: Seq<Node<S>>, sp: &SP, vc: &dyn StateValidityChecker<S>, q: &S, max: f64) -> bool {
+    exists|k: int| #[trigger] t_nearest(g0, sp, q, k, g0.len() as int) && {
+        let qn = steer_spec(sp, &g0[k].state, q, max);
+        if motion_checked(sp, vc, &g0[k].state, &qn) { t1 =~= g0.push(Node { state: qn, parent_index: Some(k as usize) }) } else { t1 =~= g0 }
+    }
+}
+'''
 
 
 def ann(*a, **k):
     A.append(Ann(*a, **k))
 
 
-ann('top', '', TREE_SPECS + NEAREST_SPECS, 'rrt.vocab')
+ann('top', '', TREE_SPECS + NEAREST_SPECS + STEER_LEMMAS + RRT_STEP, 'rrt.vocab')
 
 for g in ('S', 'SP', 'G'):
     ann('struct RRT', 'attr', '#[verifier::reject_recursive_types(%s)]' % g, 'rrt.attr.' + g)
@@ -70,7 +83,7 @@ ann('fn check_motion', 'sig', r'''
         requires self.problem_def is Some, self.validity_checker is Some,
         ensures r == motion_checked(&*self.cur_pd().space, &*self.cur_vc(), from, to),   //@ post [C01,C03,C15]
 ''', 'rrt.check_motion', ret='r')
-ann('fn check_motion', 'body-start', 'proof { ax_f64_obeys(); }', 'rrt.check_motion.ax')
+ann('fn check_motion', 'body-start', 'proof { ax_f64_obeys(); reveal(motion_checked); }', 'rrt.check_motion.ax')
 ann('fn check_motion', 'loop for#1', r'''
                 invariant
                     num_steps == num_steps_spec(&*self.cur_pd().space, from, to),
@@ -85,6 +98,7 @@ ann('fn check_motion', 'loop for#1', r'''
 ''', 'rrt.check_motion.loop', label='iter')
 ann('fn check_motion', 'before /return false;/', r'''
                     proof {
+                        reveal(motion_checked);
                         assert(1 <= i <= num_steps);
                         assert(t == t_of(i, num_steps));
                         assert(interpolated_state == space.interp_spec(from, to, t_of(i, num_steps)));
@@ -161,6 +175,17 @@ ann('fn solve', 'sig', r'''
             r is Err ==> (r->Err_0 is Timeout || r->Err_0 is InvalidStartState || r->Err_0 is PlannerUninitialised),   //@ result_domain [C06]
             final(self).sp_max() == old(self).sp_max(), final(self).sp_bias() == old(self).sp_bias(),
             final(self).tree_len() >= old(self).tree_len(),
+            // C05 (IDEAL, premise-guarded): consecutive path states are at most max_distance apart
+            (old(self).p_is_setup() && interp_speed_ok(&*old(self).p_pd().space) && old(self).p_step_params_ok() && old(self).p_edges_le(old(self).p_step_limit())) ==> {
+                &&& final(self).p_edges_le(old(self).p_step_limit())                                                         //@ edges_le [C05,C15]
+                &&& r is Ok ==> forall|k: int| #![trigger r->Ok_0.0[k]] 0 <= k < r->Ok_0.0.len() - 1 ==>
+                        rv(old(self).p_pd().space.dist_spec(&r->Ok_0.0[k], &r->Ok_0.0[k + 1])) <= old(self).p_step_limit()     //@ path_step [C05]
+            },
+            // C04 (premise-guarded): every path state satisfies the bounds
+            (old(self).p_is_setup() && in_bounds_premises(&*old(self).p_pd(), old(self).sp_max()) && old(self).p_in_bounds()) ==> {
+                &&& final(self).p_in_bounds()                                                                                //@ in_bounds [C04]
+                &&& r is Ok ==> forall|k: int| 0 <= k < r->Ok_0.0.len() ==> old(self).p_pd().space.in_bounds_spec(&#[trigger] r->Ok_0.0[k])   //@ path_in_bounds [C04]
+            },
 ''', 'rrt.solve', ret='r')
 ann('fn solve', 'body-start', 'proof { ax_f64_obeys(); }', 'rrt.solve.ax')
 ann('fn solve', 'loop loop#1', r'''
@@ -174,6 +199,8 @@ ann('fn solve', 'loop loop#1', r'''
                 self.max_distance == old(self).max_distance, self.goal_bias == old(self).goal_bias,
                 seeded_mode() ==> rng.det(),                                       //@ rng [C07]
                 self.tree@.len() >= old(self).tree@.len(),
+                (interp_speed_ok(&*pd.space) && fle(0.0f64, self.max_distance) && old(self).edges_le(rv(self.max_distance))) ==> self.edges_le(rv(self.max_distance)),   //@ edges [C05,C15]
+                (in_bounds_premises(&**pd, self.max_distance) && old(self).in_bounds_inv()) ==> self.in_bounds_inv(),    //@ in_bounds [C04]
                 <f64 as DivSpec>::obeys_div_spec(), <f64 as PartialOrdSpec<f64>>::obeys_partial_cmp_spec(),
 ''', 'rrt.solve.loop')
 ann('fn solve', 'before /let q_rand = if rng\.random_bool\(self\.goal_bias\) \{/', r'''
@@ -182,12 +209,54 @@ ann('fn solve', 'before /let q_rand = if rng\.random_bool\(self\.goal_bias\) \{/
 ann('fn solve', 'loop for#1', r'''
                 invariant
                     self.wf(), self.is_setup(), pd == self.problem_def->Some_0,
-                    nearest_node_index < self.tree.len(),
+                    1 <= i <= self.tree.len(),
                     <f64 as PartialOrdSpec<f64>>::obeys_partial_cmp_spec(),
-''', 'rrt.solve.nearest')
+                    min_dist == pd.space.dist_spec(&self.tree@[nearest_node_index as int].state, &q_rand),     //@ min_dist [C05,C16]
+                    t_nearest(self.tree@, &*pd.space, &q_rand, nearest_node_index as int, i as int),            //@ nearest [C16]
+''', 'rrt.solve.nearest', tags=['C05', 'C16'])
+ann('fn solve', 'loop-end for#1', r'''
+                proof { lemma_nearest_step(self.tree@, &*pd.space, &q_rand, g_near as int, i as int); }
+''', 'rrt.solve.nearest.step', tags=['C16'])
+ann('fn solve', 'loop-body-start for#1', 'let ghost g_near = nearest_node_index;', 'rrt.solve.nearest.ghost')
+ann('fn solve', 'loop-body-start loop#1', r'''
+            let ghost g0 = self.tree@;
+            let ghost mut g_deadline_checked = false;
+''', 'rrt.solve.iter.ghost')
+ann('fn solve', 'after /if elapsed__v > timeout \{[^}]*\}/', r'''
+            proof {
+                ax_duration_obeys();
+                assert(!elapsed__v.is_gt(&timeout));          //@ deadline_exit [C06]
+                g_deadline_checked = true;
+            }
+''', 'rrt.solve.deadline', tags=['C06'])
+ann('fn solve', 'before /let mut nearest_node_index = 0;/', r'''
+            let ghost g_q = q_rand;
+            proof {
+                lemma_nearest_init(self.tree@, &*pd.space, &q_rand);
+                assert(g_deadline_checked);                    //@ deadline_first [C06]
+                // goal bias: the sample comes from the goal region or from the space; never from the goal for bias 0, always for bias 1
+                assert(goal.goal_sample_set(&q_rand) || pd.space.sample_set(&q_rand));                 //@ sample_source [C16]
+                assert(feq(self.goal_bias, 0.0f64) ==> pd.space.sample_set(&q_rand));                  //@ bias_zero [C16]
+                assert(feq(self.goal_bias, 1.0f64) ==> goal.goal_sample_set(&q_rand));                 //@ bias_one [C16]
+            }
+''', 'rrt.solve.sample', tags=['C06', 'C16'])
 ann('fn solve', 'after /let mut q_new = q_near\.clone\(\);/', r'''
             proof { axiom_state_clone::<S>(*q_near, q_new); }
 ''', 'rrt.solve.clone1')
+ann('fn solve', 'before /if self\.check_motion\(q_near, &q_new\) \{/', r'''
+            proof {
+                assert(q_new == steer_spec(&*pd.space, q_near, &g_q, self.max_distance));                //@ steer [C05,C16]
+                if in_bounds_premises(&**pd, self.max_distance) && t_in_bounds(self.tree@, &*pd.space) {
+                    lemma_sample_in_bounds(&**pd, &g_q);
+                    lemma_steer_in_bounds(&*pd.space, q_near, &g_q, self.max_distance);
+                    assert(pd.space.in_bounds_spec(&q_new));                                             //@ steer_in_bounds [C04]
+                }
+                if interp_speed_ok(&*pd.space) && fle(0.0f64, self.max_distance) {
+                    lemma_steer_len(&*pd.space, q_near, &g_q, self.max_distance);
+                    assert(rv(pd.space.dist_spec(q_near, &q_new)) <= rv(self.max_distance));             //@ steer_len [C05]
+                }
+            }
+''', 'rrt.solve.steer', tags=['C04', 'C05', 'C16'])
 ann('fn solve', 'before /let new_node = Node \{/', r'''
                 let ghost g_tree = self.tree@;
 ''', 'rrt.solve.ghost')
@@ -196,16 +265,31 @@ ann('fn solve', 'after /self\.tree\.push\(new_node\);/', r'''
                     let t = self.tree@;
                     let n = t.len() - 1;
                     axiom_state_clone::<S>(q_new, t[n].state);
+                    assert(g_tree == g0);
                     assert(t =~= g_tree.push(t[n]));
                     assert(t[n].parent_index == Some(nearest_node_index));
-                    assert(forall|i: int| 0 <= i < n ==> t[i] == g_tree[i]);
+                    lemma_mc_valid(&*pd.space, &**vc, &g_tree[nearest_node_index as int].state, &q_new);
+                    lemma_tree_push(g_tree, t, &*pd.space, &**vc, nearest_node_index);
                     assert(t_shape(t));                                                            //@ push_shape [C15]
-                    assert(motion_checked(&*pd.space, &**vc, &t[nearest_node_index as int].state, &t[n].state));   //@ push_checked [C03,C15]
-                    assert(vc.valid(&t[n].state));                                                 //@ push_valid [C01,C15]
-                    assert(t_valid(t, &**vc));
-                    assert(t_checked(t, &*pd.space, &**vc));
+                    assert(t_checked(t, &*pd.space, &**vc));                                       //@ push_checked [C03,C15]
+                    assert(t_valid(t, &**vc));                                                     //@ push_valid [C01,C15]
+                    if interp_speed_ok(&*pd.space) && fle(0.0f64, self.max_distance) && t_edges_le(g_tree, &*pd.space, rv(self.max_distance)) {
+                        assert(t_edges_le(t, &*pd.space, rv(self.max_distance)));                  //@ push_edge_len [C05,C15]
+                    }
+                    if in_bounds_premises(&**pd, self.max_distance) && t_in_bounds(g_tree, &*pd.space) {
+                        assert(t_in_bounds(t, &*pd.space));                                        //@ push_in_bounds [C04]
+                    }
+                    // C16: exactly one node was appended: the steered state, as a child of a nearest node
+                    assert(t_nearest(g0, &*pd.space, &g_q, nearest_node_index as int, g0.len() as int));
+                    assert(rrt_step(g0, t, &*pd.space, &**vc, &g_q, self.max_distance));           //@ one_step [C16]
                 }
-''', 'rrt.solve.push')
+''', 'rrt.solve.push', tags=['C01', 'C03', 'C04', 'C05', 'C15', 'C16'])
+ann('fn solve', 'loop-end loop#1', r'''
+            proof {
+                assert(t_nearest(g0, &*pd.space, &g_q, nearest_node_index as int, g0.len() as int));
+                assert(rrt_step(g0, self.tree@, &*pd.space, &**vc, &g_q, self.max_distance));       //@ one_step_or_none [C16]
+            }
+''', 'rrt.solve.iter.end', tags=['C16'])
 ann('fn solve', 'before /return Ok\(self\.reconstruct_path\(self\.tree\.len\(\) - 1\)\);/', r'''
                     proof {
                         let t = self.tree@;
@@ -225,6 +309,19 @@ ann('fn solve', 'before /return Ok\(self\.reconstruct_path\(self\.tree\.len\(\) 
                         }
                         assert(p[0] == t[0].state);
                         assert(p[p.len() - 1] == t[n].state);
+                        if interp_speed_ok(&*sp) && fle(0.0f64, self.max_distance) && t_edges_le(t, &*sp, rv(self.max_distance)) {
+                            let m = rv(self.max_distance);
+                            lemma_up_edges(t, n, |a: S, b: S| rv(sp.dist_spec(&a, &b)) <= m);
+                            assert forall|k: int| #![trigger p[k]] 0 <= k < p.len() - 1 implies rv(sp.dist_spec(&p[k], &p[k + 1])) <= m by {
+                                assert(p[k] == u[u.len() - 1 - k]);
+                                assert(p[k + 1] == u[u.len() - 2 - k]);
+                                assert(rv(sp.dist_spec(&u[(u.len() - 2 - k) + 1], &u[u.len() - 2 - k])) <= m);
+                            }
+                        }
+                        if t_in_bounds(t, &*sp) {
+                            lemma_up_nodes(t, n, |s: S| sp.in_bounds_spec(&s));
+                            assert forall|k: int| 0 <= k < p.len() implies sp.in_bounds_spec(&#[trigger] p[k]) by { assert(p[k] == u[u.len() - 1 - k]); }
+                        }
                     }
 ''', 'rrt.solve.ok')
 
